@@ -60,6 +60,23 @@ func Derive(secret []byte) *Keys {
 	}
 }
 
+// Stream returns a fresh AES-CTR stream of the direction written by the
+// initiator (fromInitiator) or by the responder.
+func (k *Keys) Stream(fromInitiator bool) cipher.Stream {
+	if fromInitiator {
+		return ctr(k.InitKey, k.InitCtr)
+	}
+	return ctr(k.RespKey, k.RespCtr)
+}
+
+// Magic returns the magic value sent by the initiator or by the responder.
+func (k *Keys) Magic(fromInitiator bool) []byte {
+	if fromInitiator {
+		return k.InitMagic
+	}
+	return k.RespMagic
+}
+
 func ctr(key, iv []byte) cipher.Stream {
 	blk, err := aes.NewCipher(key)
 	if err != nil {
